@@ -4,13 +4,19 @@ use crate::error::{ProtocolError, ServerError};
 use crate::server::AppState;
 use std::net::SocketAddr;
 use std::sync::Arc;
-use tokio::io::{AsyncBufReadExt, AsyncWriteExt, BufReader};
+use tokio::io::{AsyncBufReadExt, AsyncReadExt, AsyncWriteExt, BufReader};
 use tokio::net::{TcpListener, TcpStream};
 use tokio::time::{Duration, timeout};
 
 pub mod handlers;
 pub mod v1;
 pub mod v2;
+
+/// Maximum accepted length of a command line in bytes (including the newline).
+///
+/// Valid commands are short (`v1/products/{product}/versions`); anything
+/// longer is rejected instead of being buffered without bound.
+const MAX_COMMAND_LEN: u64 = 8 * 1024;
 
 /// Start TCP server for Ribbit v1/v2 protocols.
 ///
@@ -57,8 +63,8 @@ async fn handle_connection(
     let addr = socket.peer_addr()?;
     tracing::debug!("Accepted TCP connection from {addr}");
 
-    // Read command with timeout
-    let mut reader = BufReader::new(&mut socket);
+    // Read command with timeout, never buffering more than MAX_COMMAND_LEN bytes
+    let mut reader = BufReader::new(&mut socket).take(MAX_COMMAND_LEN);
     let mut command = String::new();
 
     let read_result = timeout(Duration::from_secs(10), reader.read_line(&mut command)).await;
@@ -68,7 +74,14 @@ async fn handle_connection(
             tracing::debug!("TCP connection closed by client: {addr}");
             return Ok(());
         }
-        Ok(Ok(_)) => {
+        Ok(Ok(n)) => {
+            // The read was cut at the limit before a newline arrived
+            if n as u64 >= MAX_COMMAND_LEN && !command.ends_with('\n') {
+                return Err(ProtocolError::InvalidCommand(format!(
+                    "command exceeds {MAX_COMMAND_LEN} bytes"
+                )));
+            }
+
             // Command received, process it
             let command = command.trim();
             tracing::debug!("Received TCP command from {addr}: {command}");
